@@ -38,6 +38,10 @@
      - the snapshot pool reloads its node map (workerPool.loadNodes) directly
        before it schedules jobs ([APoolCheck], GENERATED fact), so a node that was
        stopped in the meantime is dropped instead of being given a job;
+     - pool shutdown ([APoolShutdown], NodeHost.Close): the ORDER of
+       workerStopper.Stop() and unloadNodes() in workerPoolMain is a GENERATED
+       fact; only when the workers are stopped first do the busy references
+       outlive the running jobs;
      - snapshot pool admission (workerPool.canSchedule): save/recover need no
        job in progress for the shard, stream needs no save/recover; a second
        stream is refused by node.ss.streaming (set on dispatch, cleared by the
@@ -126,7 +130,8 @@ Record cfg := mkCfg {
   c_load_atomic_engine : bool;   (* engine.loadBucketNodes increments under NodeHost.mu *)
   c_load_atomic_pool : bool;     (* workerPool.loadNodes increments under NodeHost.mu *)
   c_apply_checks_stopped : bool; (* processApplies tests node.stopped() first *)
-  c_pool_rechecks : bool         (* workerPoolMain reloads the node map directly before scheduling *)
+  c_pool_rechecks : bool;        (* workerPoolMain reloads the node map directly before scheduling *)
+  c_pool_stop_before_unload : bool (* pool shutdown: workerStopper.Stop() (waits for running jobs) before unloadNodes() *)
 }.
 
 Definition root_sites (c : cfg) (root : string) : list site :=
@@ -249,10 +254,15 @@ Definition job_conflict (new old : jobkind) : bool :=
 Definition pool_admits (j : jobkind) (l : list thread) : bool :=
   forallb (fun t => match t_busy t with None => true | Some o => negb (job_conflict j o) end) l.
 
+(* workerPool.unloadNodes drops the busy reference of every worker *)
+Definition is_busy_t (t : thread) : bool := match t_busy t with None => false | Some _ => true end.
+Definition clear_busy (t : thread) : thread := if is_busy_t t then mkThr (t_job t) (t_ph t) None else t.
+Definition count_busy (l : list thread) : nat := List.length (filter is_busy_t l).
+
 Inductive action :=
 | AStop
 | AApLoad | AApIncr | AApCheck | AApStart (n : nat) | AApOffload | AApClearStream
-| APoolLoad | APoolIncr | APoolCheck | APoolOffload
+| APoolLoad | APoolIncr | APoolCheck | APoolOffload | APoolShutdown
 | ASchedule (w : nat) (j : jobkind) | ACompleted (w : nat)
 | AReaderStart (r : nat) (n : nat)
 | ACloseStart
@@ -358,6 +368,21 @@ Definition step (c : cfg) (st : state) (a : action) : option state :=
     else None
   | APoolOffload =>
     if stopped st && ref_eqb (pool_ref st) Loaded then Some (offload (set_pool st Gone)) else None
+  | APoolShutdown =>
+    (* NodeHost.Close -> engine.close -> workerPool.close: the pool goroutine leaves its loop.
+       In the order [workerStopper.Stop(); unloadNodes()] it first waits until every snapshot
+       worker has returned from its job, then drops the pool's reference and all busy
+       references; in the other order the references are dropped while jobs may still run *)
+    if negb (ref_eqb (pool_ref st) Seen)
+       && (negb (c_pool_stop_before_unload c)
+           || forallb (fun t => negb (is_busy_t t) || is_idle t) (thr st))
+    then
+      let dec := (if ref_eqb (pool_ref st) Loaded then 1 else 0) + count_busy (thr st) in
+      let cnt' := cnt st - dec in
+      Some (mkState (map clear_busy (thr st)) (destroyed st) (closed st) (nclose st) (stopped st) cnt'
+                    (ap_ref st) (ap_chk st) Gone false
+                    (close_ready st || ((0 <? dec) && (cnt' =? 0))) (ss_streaming st) (stream_done st))
+    else None
   | ASchedule w j =>
     let t := getT st w in
     match role_of c w with
@@ -433,7 +458,7 @@ Definition overlap (p q : meth -> bool) (st : state) : bool :=
 Definition gen_sites : list site := sites_of_table lock_table.
 Definition gen_cfg (k : kind) (nsnap : nat) : cfg :=
   mkCfg gen_sites k nsnap engine_load_inside_foreach pool_load_inside_foreach apply_checks_stopped
-        pool_rechecks_before_schedule.
+        pool_rechecks_before_schedule pool_stops_workers_before_unload.
 
 (* ---- table conditions the positive theorems need (booleans, decided by computation) ---- *)
 Definition site_ok_core (s : site) : bool :=
